@@ -59,6 +59,32 @@ P.update({
          'allocation balance kept, next call unaffected. Fault injection: every libidn2 code x buffer yes/no at every position of runs of 1-50 validations, allocation counters, ASan/LSan build.', 'Coq proof + fault-injection correspondence', '6/C19'),
 })
 
+P.update({
+ 'C05': ('proof', 'Theorems for every byte string: accepted bracketed domain = "[" c "]" with c four decimal octets 0-255 (family IPv4) or an RFC 4291 IPv6 text form, tagged IPv6: or untagged (family IPv6), nothing else '
+         '(C05_accepted_literals, from the parser invariants C05_ipv4_parser_upper / C05_ipv6_parser_upper); every dotted quad with non-zero first octet and every IPv6:-tagged literal of the RFC 5321 4.1.3 grammar is accepted '
+         'in every mode with the right flag (C05_*_literals_accepted). Correspondence + an independent reading of the grammars evaluated on implementation outputs: octet values 0-300 in every position, every IPv6 shape, tags, junk around brackets.',
+         'Coq proof (parser invariants, both inclusions) + differential correspondence', '6/C05'),
+ 'C06': ('proof', 'PARTIAL. Proved on the model: abort() unreachable with the shipped table, no NULL callback after a successful setup, allocation balance, eav_init writes every field (regenerated), one-byte look-ahead discipline of the scanners, '
+         'label-buffer bound. Runtime half on the real code: ASan+UBSan+LSan with inputs in exact-size heap blocks, PROT_NONE guard pages after the terminator / before the first byte on the default build, valgrind memcheck with eav_t on uninitialised memory, '
+         'callgrind instruction counts at n/2n/4n. The model cannot exhibit compiler-level UB, allocator or libc/libidn2 internals; those are covered only as far as the sanitizers see them.',
+         'Coq proof of the safety logic of the model + sanitizer / guard-page / valgrind runs', '6/C06'),
+ 'C10': ('proof', 'Theorems relative to the IDN conversion (a parameter; each needed fact is an explicit hypothesis checked against libidn2 on every generated conversion): U-label and A-label give identical results; the ASCII modes give the A-label the same verdict; '
+         'the verdict of the ASCII machinery is invariant under case folding, hence all-ASCII domains get the ASCII-mode verdict or an IDN error; refusals are rejections. Correspondence and the relations on implementation outputs: labels from 8 scripts with hyphen/disallowed/xn-- mutations, long U-labels with short A-labels, every IDN TLD.',
+         'Coq proof relative to an oracle + differential / relational testing against libidn2', '6/C10'),
+ 'C14': ('proof', 'PARTIAL. Theorems: the library has no writable static storage (inventory regenerated from the built libeav.a), and in the model any interleaving gives each thread the outcomes of running alone. '
+         'Runtime half: ThreadSanitizer build, 2-16 threads with own eav_t over all modes, ASCII and IDN domains, seeded yields, per-thread outcomes compared with a sequential pass. Races inside libidn2/glibc and weak-memory effects are outside the model.',
+         'Coq proof (frame property of the model, static-storage inventory) + ThreadSanitizer harness', '6/C14'),
+ 'C17': ('proof', 'Theorems: RFC20 option rejects exactly the default-accepted local parts with #^`{|}~ outside quotes; underscore option = default build on the name with _ read as a letter (same code); follow-5322 = mode 5322 on ASCII (same code); '
+         'ASCII modes see only the underscore option, mode 6531 only the three options. The library is built with the repository Makefile in 5 (8) configurations, each compared with the model under that configuration, and the relations to the default build are evaluated on implementation outputs.',
+         'Coq proof (lock-step simulations) + differential correspondence over build configurations', '6/C17'),
+ 'C18': ('proof', 'Theorems: the back end enters the facade only through the conversion function (equal conversions => equal histories); idnkit context invariant and release exactly once over all legal histories. '
+         'partial/idn and partial/idnkit are built with the repository Makefile against stub headers + an adapter onto libidn2 (the real libraries are absent); the three builds run the same E/U/A cases against one model and against each other, with context accounting.',
+         'Coq proof + differential correspondence of three builds via an adapter', '6/C18'),
+ 'C20': ('proof', 'Theorems on the tool model: one verdict per non-comment line, in order, equal to the library decision on the trimmed line; output shape; well-formed UTF-8 without controls echoed unchanged. '
+         'Runtime: bin/eav built from /repo/bin with ASan+UBSan+LSan on generated files (all line shapes x terminators x final newline); stdout compared byte for byte with model trimming/sanitising + the library decision and message; exit status 0.',
+         'Coq proof of the tool model + byte-exact comparison with the ASan-built tool', '6/C20'),
+})
+
 def entry(pid):
     cat, text, tech, ref = P[pid]
     return {
